@@ -32,7 +32,8 @@ JudgeDigest(ev) ==
   \cup (IF ev.ctxzero = 1 THEN {} ELSE {V("C09", "CtxErased")})
 JudgeHmac(ev) ==
   LET m == M!Hmac(ev.facts, 64, ev.key, ev.msg) IN
-  IF m = <<>> THEN {V("C16", "HmacMissingFact")} ELSE IF m = ev.mac THEN {} ELSE {V("C16", "Hmac")}
+  (IF m = <<>> THEN {V("C16", "HmacMissingFact")} ELSE IF m = ev.mac THEN {} ELSE {V("C16", "Hmac")})
+  \cup (IF "ctxzero" \in DOMAIN ev /\ ev.ctxzero # 1 THEN {V("C09", "CtxErased")} ELSE {})
 JudgePbkdf2(ev) ==
   LET dk == M!Pbkdf2(ev.facts, 32, ev.salt, ev.c, ev.dklen) IN
   IF dk = <<>> THEN {V("C16", "Pbkdf2MissingFact")} ELSE IF dk = ev.dk THEN {} ELSE {V("C16", "Pbkdf2")}
